@@ -9,6 +9,7 @@ package main
 import (
 	"bufio"
 	"fmt"
+	abcitypes "github.com/tendermint/tendermint/abci/types"
 	"os"
 	"os/exec"
 	"path/filepath"
@@ -140,6 +141,12 @@ func replayCase(env *vlib.Env, h int, rep *vlib.Reporter) {
 			return
 		}
 		loaded.Gobpath = "" // the restarted node's own saves are not under test here
+		// Tendermint's handshake replays the blocks after the height the application reports
+		if info := loaded.Info(abcitypes.RequestInfo{}); info.LastBlockHeight != int64(s) {
+			detail["reported_height"] = info.LastBlockHeight
+			rep.Violationf("restart:reported-height", detail, "the application loaded from the file saved at height %d reports last block height %d: Tendermint would replay from the wrong block", s, info.LastBlockHeight)
+			return
+		}
 		rr := &smchain.Replica{App: &loaded, U: hist.U, Height: int64(s)}
 		if c := smchain.Canon(rr.App); c != states[s-1] {
 			rep.Violationf("restart:state-after-load", detail, "state loaded from the file saved at height %d differs from the state that was saved", s)
